@@ -95,7 +95,6 @@ Qed.
 
 Record names_ok {A} (name : A -> oname) (l : list A) (ns : list str) : Prop := {
   no_map : map name l = map Some ns;
-  no_abs : forall n, In n ns -> absolute n = true;
   no_dup : NoDup ns }.
 
 Lemma named_ok_spec {A} (name : A -> oname) l :
@@ -103,12 +102,11 @@ Lemma named_ok_spec {A} (name : A -> oname) l :
 Proof.
   unfold named_ok. split.
   - destruct (names_of name l) as [ns|] eqn:E; [|discriminate].
-    intro H. apply andb_true_iff in H as [H1 H2]. exists ns. split.
+    intro H2. exists ns. split.
     + apply names_of_map. assumption.
-    + rewrite forallb_forall in H1. assumption.
     + apply nodup_str_NoDup. assumption.
-  - intros [ns [H1 H2 H3]]. apply names_of_map in H1. rewrite H1.
-    apply andb_true_iff. split; [apply forallb_forall; assumption|apply nodup_str_NoDup; assumption].
+  - intros [ns [H1 H3]]. apply names_of_map in H1. rewrite H1.
+    apply nodup_str_NoDup; assumption.
 Qed.
 
 Lemma map_some_in {A} (name : A -> oname) l ns x :
@@ -138,15 +136,15 @@ Proof.
     eapply IH; eauto.
 Qed.
 
-Lemma lookup_at {A} (name : A -> oname) sk l1 y l2 ns n :
+Lemma lookup_at {A} (name : A -> oname) l1 y l2 ns n :
   names_ok name (l1 ++ y :: l2) ns -> name y = Some n ->
-  lookup name sk n (l1 ++ y :: l2) = Some y.
+  lookup name n (l1 ++ y :: l2) = Some y.
 Proof.
-  intros [Hm Ha Hd] Hy. unfold lookup.
+  intros [Hm Hd] Hy. unfold lookup.
   destruct (map_some_in name _ ns y Hm) as [n' [Hn' Hi]].
   { apply in_or_app. right. left. reflexivity. }
   assert (n' = n) by congruence. subst n'.
-  rewrite (Ha n Hi). eapply find_has_name_at; eauto.
+  eapply find_has_name_at; eauto.
 Qed.
 
 (* ---------- positional comparison ---------- *)
@@ -157,30 +155,30 @@ Fixpoint cmp_zip {A} (skip : A -> bool) (f : A -> A -> outcome) (os cs : list A)
   | _, _ => Accept
   end.
 
-Lemma cmp_each_zip_gen {A} (name : A -> oname) skip sk f comps ns :
+Lemma cmp_each_zip_gen {A} (name : A -> oname) skip f comps ns :
   names_ok name comps ns ->
   forall so sc pc, comps = pc ++ sc -> map name so = map name sc ->
-  cmp_each name skip (fun n => lookup name sk n comps) f so = cmp_zip skip f so sc.
+  cmp_each name skip (fun n => lookup name n comps) f so = cmp_zip skip f so sc.
 Proof.
   intros Hok. induction so as [|o so IH]; intros sc pc Hc Hm; [destruct sc; reflexivity|].
   destruct sc as [|c sc]; [discriminate|]. cbn in Hm. inversion Hm as [[Hn Hm']].
   destruct (map_some_in name comps ns c (no_map _ _ _ Hok)) as [n [Hcn _]].
   { subst comps. apply in_or_app. right. left. reflexivity. }
   cbn. rewrite Hn, Hcn.
-  assert (Hrest : cmp_each name skip (fun n0 => lookup name sk n0 comps) f so = cmp_zip skip f so sc).
+  assert (Hrest : cmp_each name skip (fun n0 => lookup name n0 comps) f so = cmp_zip skip f so sc).
   { apply (IH sc (pc ++ [c])); [rewrite <- app_assoc; assumption|assumption]. }
   destruct (skip o); [assumption|].
-  subst comps. rewrite (lookup_at name sk pc c sc ns n Hok Hcn).
+  subst comps. rewrite (lookup_at name pc c sc ns n Hok Hcn).
   rewrite Hrest. reflexivity.
 Qed.
 
 (* name-keyed comparison = positional comparison when both lists carry the same names *)
-Lemma cmp_each_zip {A} (name : A -> oname) skip sk f os cs :
+Lemma cmp_each_zip {A} (name : A -> oname) skip f os cs :
   named_ok name cs = true -> map name os = map name cs ->
-  cmp_each name skip (fun n => lookup name sk n cs) f os = cmp_zip skip f os cs.
+  cmp_each name skip (fun n => lookup name n cs) f os = cmp_zip skip f os cs.
 Proof.
   intros H Hm. apply named_ok_spec in H as [ns Hok].
-  apply (cmp_each_zip_gen name skip sk f cs ns Hok os cs []); [reflexivity|assumption].
+  apply (cmp_each_zip_gen name skip f cs ns Hok os cs []); [reflexivity|assumption].
 Qed.
 
 Lemma cmp_zip_refl {A} (skip : A -> bool) f l :
